@@ -165,6 +165,20 @@ def gen_real(c):
                 fit.append({'name': m['name'],
                             'mode': c.choice(['linear', 'log']),
                             'prior': spec, 'set_prior': True})
+    if mcfg['tp']['kind'] == 'guillot' and c.random() < 0.5:
+        # a temperature parameter whose prior reaches the invalid region
+        # (negative irradiation temperature: the profile refuses it)
+        fit = [f for f in fit if f['name'] != 'T_irr']
+        fit.append({'name': 'T_irr', 'mode': 'linear', 'set_prior': True,
+                    'prior': c.choice([
+                        {'kind': 'Uniform', 'args': {'bounds': [-900.0, 2200.0]}},
+                        {'kind': 'Gaussian', 'args': {'mean': 300.0,
+                                                      'std': 500.0}}])})
+        wide = True
+    # derived parameters switched on or off (the callbacks owe the sampler
+    # nothing about them)
+    mcfg['derived'] = [] if c.random() < 0.4 else \
+        [d_ for d_ in ('mu', 'logg', 'avg_T') if c.random() < 0.6]
     return mcfg, fit, wide
 
 
@@ -414,7 +428,7 @@ def execute(case, keep_text=False):
         opt = klass(multi_nest_path=chain, observed=obs, model=model, **okw)
     else:
         opt = klass(polychord_path=chain, observed=obs, model=model, **okw)
-    S.configure_optimizer(opt, fit, derived=[])
+    S.configure_optimizer(opt, fit, derived=cfg['model'].get('derived', []))
 
     baseline = {}
     for n, t in list(model.fittingParameters.items()):
@@ -535,11 +549,13 @@ def execute(case, keep_text=False):
                     L = cbs['loglike'](cube, ndim, ndim + 1)
                 else:
                     ret = cbs['loglike'](np.array(th, dtype=float))
+                    # as many derived values as the wrapper announced to
+                    # run_polychord (one dummy slot today)
                     if not (isinstance(ret, tuple) and len(ret) == 2 and
-                            len(ret[1]) == 1):
+                            len(ret[1]) == int(cbs.get('nderived', 1))):
                         viol('protocol', 'polychord-return',
-                             'loglike must return (logL, [1 derived]), got %r'
-                             % (ret,), step)
+                             'loglike must return (logL, [%s derived]), got '
+                             '%r' % (cbs.get('nderived', 1), ret), step)
                         raise Stop()
                     L = ret[0]
                 L = float(L)
